@@ -120,8 +120,11 @@ DoLoop(cont, st, L, val) ==
 \* s = [g |-> expr or [t |-> "none"], e |-> expr]
 Guarded(s)       == s.g.t # "none"
 Fires(st, s, val) == ~Guarded(s) \/ st.flag < Eval(s.g, val)
-Exchanged(st, e) == [st EXCEPT !.ann = TRUE, !.halo = HMax(@, e),
-                               !.flag = HMax(@, e)]
+\* depth 0 (a variable stencil extent of 0 and nothing else to serve) is outside
+\* the range 1..H of the field API: nothing is exchanged, is_dirty(0) is false
+Exchanged(st, e) == IF e = 0 THEN st
+                    ELSE [st EXCEPT !.ann = TRUE, !.halo = HMax(@, e),
+                                    !.flag = HMax(@, e)]
 DoHex(cont, st, s, val) ==
   IF st.pend # "none" THEN Res("AsyncOverlap", st)
   ELSE IF Guarded(s) /\ ~FlagSound(cont, st) THEN Res("FlagSound", st)
